@@ -46,15 +46,19 @@ unit("C23", "In-header metadata fields are isolated and report their own previou
           "accessed through u8..usize, aligned 8/16/32/64-bit fields with masks none/all-ones/low-3-clear/forwarding-style/single-byte/random) "
           "x every accessor (load, store, atomic variants, compare_exchange success+failure, fetch_add/sub/and/or, fetch_update Some/None) "
           "x randomly pre-filled 64-byte headers, plus 64-op sequences on a persistent header; non-trivial = neighbouring bits are non-zero or the "
-          "op wraps/fails; distinct = (op, width, shift-in-byte, masked?, access type, outcome class)",
-     technique="reference-model monitor: bit-vector model of the header vs the real HeaderMetadataSpec accessors, whole-buffer comparison after every op",
+          "op wraps/fails; distinct = (op, width, shift-in-byte, masked?, access type, outcome class); "
+          "concurrent phase: 300 rounds (thorough 4000) in which 2-4 real threads each own some of the disjoint fields of ONE header (a byte split into 1-3-bit fields, or a 64-bit "
+          "masked field forwarding-word style with sub-byte fields in its excluded low bits and a byte field in its excluded top byte) and run 8000 atomic ops on them: "
+          "every return value is determined by the owner's private model, and at the join the header equals the merged models",
+     technique="reference-model monitor: bit-vector model of the header vs the real HeaderMetadataSpec accessors, whole-buffer comparison after every op; single-owner-per-field histories under real threads for isolation of the atomic accessors",
      level_text="Every accessor of every legal header spec is run on randomly pre-filled headers and compared (return value incl. CAS Ok/Err "
                 "values, and the full buffer) with a bit-vector model. Exhaustive over specs and ops, sampled over header contents.",
      note="Trusts the bit-vector model in units/src/c23.rs; orderings restricted to SeqCst/Relaxed/Acquire (Release orderings on sub-byte "
           "fields panic inside std by construction of the implementation and are outside the property's statement).",
      design_ref="2/C23", miri=True, miri_tier=1,
      floors={"quick": {"evaluations": 9000000, "ops_with_nonzero_neighbour_bits": 8000000, "cas_expected_ok": 800000,
-                       "cas_expected_err": 500000, "ops_wide_field_masked": 300000}})
+                       "cas_expected_err": 500000, "ops_wide_field_masked": 300000, "concurrent_ops": 2000000,
+                       "concurrent_fetch_update_closure_retries": 5, "concurrent_rounds_masked_word": 50, "concurrent_rounds_split_byte": 50}})
 
 unit("C32", "Space descriptors encode and decode their heap range",
      rule="three discontiguous VM layouts (32-bit, custom heap end, 64-bit range) x start = odd 14-bit mantissa << (18+e), e in 4..=31 x 1..=1023 chunks: "
@@ -109,13 +113,16 @@ unit("C19", "Block pool never loses or duplicates a block",
 unit("C20", "Side metadata behaves as an array of independent fixed-width integers",
      rule="42 specs (1..64 bits x region 2^{3,4,8,12,15,22}) each with a window of 256-512 fields straddling a metadata page boundary, pre-filled with a random pattern; "
           "1.5M-op random histories per spec (thorough 40M) of load/store/atomic/set_zero/compare_exchange ok+fail/fetch_add/sub/and/or/fetch_update accept+reject, 25% of data addresses not region aligned, "
-          "fields biased to neighbours sharing a byte/word; distinct = (op, width, region, shift-in-byte, neighbour relation, outcome)",
-     technique="reference-model monitor: Vec<u64> field model vs real SideMetadataSpec accessors; whole raw metadata window (with margins) compared byte-by-byte after every op",
+          "fields biased to neighbours sharing a byte/word; distinct = (op, width, region, shift-in-byte, neighbour relation, outcome); "
+          "concurrent phase: 14 windows (7 widths x region 2^{3,12}) x {2,3,4} real threads, field i owned by thread i mod T (so fields sharing a byte/word change concurrently), "
+          "150k (thorough 2M) atomic ops per thread on owned fields only: every return value is determined by the owner's private model; at the join the whole window equals the merged models",
+     technique="reference-model monitor: Vec<u64> field model vs real SideMetadataSpec accessors; whole raw metadata window (with margins) compared byte-by-byte after every op; single-owner-per-field histories under real threads for independence of the atomic accessors",
      level_text="Every return value and the full metadata window are compared with a field-array model after every operation of long random histories on randomly pre-filled metadata; "
                 "all widths and several region sizes enumerated.",
      note="Values always fit the field width and T matches the width as the API requires. Memory orderings are not part of the property: Release-ordering panics on sub-byte specs are recorded as notes only.",
      design_ref="2/C20",
-     floors={"quick": {"configs": 42, "evaluations": 50000000, "selftest_mutants_caught": 6}})
+     floors={"quick": {"configs": 42, "evaluations": 50000000, "selftest_mutants_caught": 6, "concurrent_windows": 42, "concurrent_ops": 15000000,
+                       "concurrent_fetch_update_closure_retries": 5}})
 
 unit("C21", "Bulk side-metadata zero/set/copy touch exactly the covered regions",
      rule="42 specs x {bzero, bset, bcopy between equal-shape specs}: windows centred on a metadata chunk/page boundary, randomly refilled before every call; all (start,end) pairs within +-140 fields "
@@ -420,12 +427,15 @@ unit("C29", "Discontiguous chunk allocation keeps the region map consistent",
 unit("C30", "Mmap chunk states only move Unmapped to Quarantined to Mapped",
      rule="150 histories (thorough 3000) on a private ChunkStateMmapper over a 98 GiB PROT_NONE reservation modelling 8704 chunks around two 32 GiB slab boundaries of the two-level storage: legal quarantine / ensure_mapped / mark_as_mapped "
           "calls over aligned and unaligned ranges (in one slab, spanning one or two boundaries, whole slab); after each op the recorded state of ALL chunks + 4 outside, monotonicity, is_mapped_address, and read-write probes of mapped chunks; "
-          "distinct = (op, range placement class, alignment, prior-state mix)",
-     technique="reference-model monitor: per-chunk state model vs the real mmapper (state via verif hook, mapped-ness via pipe read/write probes)",
+          "distinct = (op, range placement class, alignment, prior-state mix); concurrent histories (120, thorough 1500): 4 real threads call ensure_mapped over random overlapping sub-ranges of a 40-chunk region around a slab boundary "
+          "whose chunks start as a mix of Unmapped and Quarantined on a fresh mmapper; when a call returns every chunk of its range must be recorded Mapped, is_mapped_address true and writable, a per-thread token left in each "
+          "covered chunk must survive (a chunk mapped twice loses it or fails with EEXIST), and the quiescent states must be Mapped exactly for the covered chunks",
+     technique="reference-model monitor: per-chunk state model vs the real mmapper (state via verif hook, mapped-ness via pipe read/write probes); token-survival and forward-only state checks under real threads",
      level_text="Every operation is followed by a comparison of every modelled chunk's recorded state with the model, plus OS-level readability/writability probes.",
      note="Only documented-legal call sequences (no re-quarantine of quarantined chunks; mark_as_mapped only on memory the harness mapped).",
      design_ref="2/C30",
-     floors={"quick": {"evaluations": 5000, "range_spans_one_boundary": 700, "range_spans_two_boundaries": 40, "op_quarantine": 400, "op_ensure_mapped": 400, "op_mark_as_mapped": 400, "rw_probed_chunks": 5000}})
+     floors={"quick": {"evaluations": 5000, "range_spans_one_boundary": 700, "range_spans_two_boundaries": 40, "op_quarantine": 400, "op_ensure_mapped": 400, "op_mark_as_mapped": 400, "rw_probed_chunks": 5000,
+                       "concurrent_histories": 100, "concurrent_ensure_mapped_calls": 4000, "concurrent_tokens_rechecked": 50000}})
 
 unit("C37", "Compressor forwarding addresses pack live objects in order",
      rule="~150k object layouts (thorough ~3M) in three 1 MiB regions whose data is NOT mapped (any read of object memory would fault): dense, sparse, block-straddling, boundary (object starting at a block start / ending at a block end / "
